@@ -401,4 +401,33 @@ def attachedValue (reg : List Nat) (name data : Nat) : Val :=
 /-- `luaL_checkudata(L, i, name)` -/
 def demands (name : Nat) (v : Val) : Bool := v.ty == .userdata && v.cls == name
 
+/-! ### the namespace tree
+
+`wrap_namespace(node)` handles the classes of `node`, then its functions, then calls itself for every
+nested namespace whose `wrap.lua` is on -- unconditionally: a scope without functions, without
+classes or without anything of its own still has its nested namespaces visited.  The tree is given in
+pre-order with the depth of every node (library = depth 0); the subtree of a namespace that is
+switched off is skipped. -/
+
+structure NsNode where
+  depth : Nat
+  wrapLua : Bool
+  scope : ScopeD
+  deriving Repr
+
+/-- the scopes `wrap_namespace` visits, in order; `skip = some d`: inside a switched-off subtree whose
+    root has depth `d` -/
+def visit : Option Nat → List NsNode → List ScopeD
+  | _, [] => []
+  | sk, n :: rest =>
+    if (match sk with | some d => decide (d < n.depth) | none => false) then visit sk rest
+    else if n.wrapLua then n.scope :: visit none rest
+    else visit (some n.depth) rest
+
+/-- `luaL_Reg_module` of a library given as a tree -/
+def moduleRegsTree (nodes : List NsNode) : List (Nat × Nat) := moduleRegs (visit none nodes)
+
+/-- the classes that get a userdata type, a metatable and a method table -/
+def classesTree (nodes : List NsNode) : List ClassD := (visit none nodes).flatMap (·.classes)
+
 end Shroud.LuaDispatch
